@@ -122,7 +122,8 @@ SPEC = {
     "theorems": [T + n for n in [
         "source_shape", "expand_terminates", "expand_never_hangs", "object_like_is_substitution", "function_like_is_substitution",
         "define_undef_scoping", "macro_names_always_distinct", "api_defines_equal_file_defines",
-        "expand_refines_spec_partial", "expand_refines_spec", "expand_refines_spec_decided", "object_like_refines_spec",
+        "expand_refines_spec_partial", "expand_refines_spec", "expand_refines_spec_decided", "tame_class_is_decided",
+        "object_like_refines_spec",
         "trailing_function_name_is_invoked", "paste_is_single_token", "paste_matches_lexer",
         "parse_yields_wellformed_macro", "directive_takes_effect_from_its_line",
         "api_defines_equal_file_defines_tokens", "include_of_empty_file",
